@@ -453,3 +453,31 @@ impl Zhint for Ztri { fn hint(&self, k: u8) -> u8 { k / 2 } }
 impl<'a> Zhint for dyn Zshape + 'a { fn hint(&self, _k: u8) -> u8 { 1 } }
 fn zvia<T: Zshape + Zhint + ?Sized>(s: &T, k: u8) -> u32 { s.area(s.hint(k)) }
 pub fn p_dyn_static_impl(x: u8, y: u8) -> u32 { let d: &dyn Zshape = if y & 1 == 0 { &Zsq } else { &Ztri }; zvia(d, x) + zvia(&Zsq, x) * 7 + zvia(&Ztri, x) * 1000 + d.hint(x) as u32 * 0x100_0000 }
+
+// ---- twelfth batch: review items from red-team round 8
+pub fn q_slice_from_end(x: u8, y: u8) -> u32 { let a = [x, y, x ^ y, 9, 4]; let s: &[u8] = if y & 1 == 0 { &a[..2] } else if y & 2 == 0 { &a[1..] } else { &a[..] }; let r = match s { [p, .., n] => *p as u32 + *n as u32 * 256, [one] => *one as u32, [] => 0 }; let t = if let [.., b, c] = s { *b as u32 * 2 + *c as u32 } else { 7 }; let u = match s { [_, mid @ .., _] => mid.len() as u32, _ => 9 }; r + t * 0x1_0000 + u * 0x100_0000 }
+pub fn q_nested_array_copy(x: u8, y: u8) -> u32 { let mut a = [[x, 1], [y, 2]]; let b = a; a[0][0] = a[0][0].wrapping_add(1); a[1] = [7, 7]; let c = [a, b]; let mut d = c; d[1][1][0] = 99; b[0][0] as u32 + a[0][0] as u32 * 256 + c[1][1][0] as u32 * 65536 + d[1][1][0] as u32 * 0x100_0000 }
+#[derive(Clone, Copy, PartialEq)] enum Nich { A, B(bool), C, D(Key), E }
+static NICHES: [Nich; 6] = [Nich::C, Nich::B(true), Nich::A, Nich::D(Key::Up), Nich::B(false), Nich::E];
+static OPTKEYS: [Option<Key>; 4] = [None, Some(Key::A), Some(Key::Up), None];
+static SIGNED: [i8; 5] = [-128, -1, 0, 1, 127];
+static SIGNED16: [i16; 3] = [-300, 5, 300];
+pub fn q_niche_statics(x: u8, y: u8) -> u32 { let n = NICHES[(x % 6) as usize]; let a = match n { Nich::A => 1, Nich::B(true) => 2, Nich::B(false) => 3, Nich::C => 4, Nich::D(k) => 10 + k as u32, Nich::E => 5 }; let o = OPTKEYS[(y & 3) as usize].map_or(0, |k| k as u32 + 1); let s = SIGNED[(y % 5) as usize]; let w = SIGNED16[(x % 3) as usize]; a + o * 64 + ((s as i32 + 200) as u32) * 1024 + ((w as i32 + 1000) as u32) * 0x10_0000 + ((n == Nich::B(y & 1 == 1)) as u32) * 0x8000_0000 }
+fn sum_n<const N: usize>(a: [u8; N]) -> u32 { let mut s = 0u32; let mut i = 0; while i < N { s += a[i] as u32 * (i as u32 + 1); i += 1; } s + N as u32 * 1000 }
+fn pick<const HI: bool>(x: u8) -> u8 { if HI { x >> 4 } else { x & 15 } }
+pub fn q_const_generic(x: u8, y: u8) -> u32 { sum_n([x, y]) + sum_n([x, y, 3]) * 3 + (pick::<true>(x) as u32) * 0x10_0000 + (pick::<false>(y) as u32) * 0x100_0000 }
+trait Dev { type Dec: Decode; fn dec(&self) -> Self::Dec; }
+trait Decode { fn run(&self, b: u8) -> u32; }
+struct DA(u8); struct DB;
+impl Decode for DA { fn run(&self, b: u8) -> u32 { b as u32 + self.0 as u32 } }
+impl Decode for DB { fn run(&self, b: u8) -> u32 { b as u32 * 2 } }
+struct KA; struct KB;
+impl Dev for KA { type Dec = DA; fn dec(&self) -> DA { DA(5) } }
+impl Dev for KB { type Dec = DB; fn dec(&self) -> DB { DB } }
+fn drive<D: Dev>(d: &D, b: u8) -> u32 { let dec: D::Dec = d.dec(); <D::Dec as Decode>::run(&dec, b) }
+pub fn q_assoc_type(x: u8, y: u8) -> u32 { if y & 1 == 0 { drive(&KA, x) } else { drive(&KB, x) } }
+struct UnitDec; struct UnitPair(UnitDec, ());
+impl Decode for UnitDec { fn run(&self, b: u8) -> u32 { b as u32 ^ 0x55 } }
+impl Decode for UnitPair { fn run(&self, b: u8) -> u32 { self.0.run(b) + 1000 } }
+fn run_gen<D: Decode>(d: &D, b: u8) -> u32 { d.run(b) }
+pub fn q_zst_locals(x: u8, y: u8) -> u32 { let a = UnitDec; let p = UnitPair(UnitDec, ()); let r = &a; if y & 1 == 0 { run_gen(r, x) } else { run_gen(&p, x) } }
